@@ -762,6 +762,13 @@ func (w *World) escapesUnreturned(e ssa.Value) string {
 		}
 		return d(res)
 	}
+	// only for the results of statically resolved calls (a function value's
+	// contract is not summarised here)
+	if ex, ok := e.(*ssa.Extract); ok {
+		if c, ok := ex.Tuple.(*ssa.Call); ok && c.Call.StaticCallee() == nil {
+			return ""
+		}
+	}
 	start := in.Block()
 	seenB := map[*ssa.BasicBlock]bool{}
 	work := []*ssa.BasicBlock{start}
@@ -784,6 +791,16 @@ func (w *World) escapesUnreturned(e ssa.Value) string {
 		// error, there is nothing to hand back (`if v, known, err := f(); known
 		// { return v, err }` with f answering known == false only beside nil)
 		if iff, ok := b.Instrs[len(b.Instrs)-1].(*ssa.If); ok && len(b.Succs) == 2 {
+			// compared with a sentinel (err == io.EOF): on the equal side the error
+			// is that sentinel, handled there (the EOF idiom is decided elsewhere)
+			if bo, ok := iff.Cond.(*ssa.BinOp); ok && (bo.Op == token.EQL || bo.Op == token.NEQ) && (bo.X == e || bo.Y == e) {
+				if bo.Op == token.EQL {
+					work = append(work, b.Succs[1])
+				} else {
+					work = append(work, b.Succs[0])
+				}
+				continue
+			}
 			cond, neg := iff.Cond, false
 			if u, ok := cond.(*ssa.UnOp); ok && u.Op == token.NOT {
 				cond, neg = u.X, true
